@@ -29,6 +29,7 @@ import numpy as np
 from lib import core, gen, graphcap
 
 EXTRACTORS = ["Generic"]
+EXTRA_PROPS = ["C17Lower"]
 BACKENDS = ["numpy", "numpy.numpylike", "numpy.einsum"]
 FORBIDDEN = (ast.For, ast.AsyncFor, ast.While, ast.If, ast.IfExp, ast.ListComp, ast.SetComp, ast.DictComp, ast.GeneratorExp,
              ast.Lambda, ast.Try, ast.With, ast.AsyncWith, ast.Match, ast.BoolOp, ast.NamedExpr, ast.Await, ast.Yield, ast.YieldFrom,
@@ -568,6 +569,9 @@ def run(ctx):
             break
     if ctx.driver_ok:
         stb_tie(ctx, n_stb)
+        # the lowering models of elementwise operations and reductions (Generic/LowerOps.lean) against traced graphs
+        from props import lower_tie
+        lower_tie.lower_tie(ctx, n_stb, SizedCall, variants)
     ctx.extra["traces_validated_against_impl"] = ctx.extra.get("texts_checked", 0) + ctx.extra.get("graphs_validated", 0)
 
 
